@@ -237,6 +237,71 @@ def forward(rng, n, out):
     out["distribution"]["sympy_to_casadi"] = stats
 
 
+def forward_cse(rng, n, out):
+    """the CSE path of sympy_to_casadi (cse=True): expressions with nested common subexpressions; the result must evaluate
+    like the plain conversion (which is tied to the Coq model by forward()) and like sympy, must not depend on temporaries
+    outside the returned symbol table, and the table must be the one the plain conversion returns"""
+    from cyecca.symbolic import sympy_to_casadi
+    x, y, z = sympy.symbols("x y z")
+    stats = {"trees": 0, "nested_cse": 0, "with_preexisting_x0": 0}
+    for i in range(n):
+        a = gen_tree(rng, int(rng.integers(1, 3)), malformed=False)
+        if not a.free_symbols:
+            a = a + x
+        kind = i % 4
+        u = a + y if kind != 3 else a * z
+        v = u ** 2 if kind in (0, 3) else sympy.sin(u)
+        w = sympy.cos(v) + v
+        t = sympy.sin(v) + w * u + (w * v if kind == 2 else w)
+        defs, _ = sympy.cse(t)
+        stats["trees"] += 1
+        stats["nested_cse"] += int(any(d[1].has(*[dd[0] for dd in defs]) for d in defs))
+        for pre in (False, True):
+            symbols = {}
+            if pre:
+                symbols["x0"] = ca.SX.sym("x0")       # a variable of that name already in the caller's table
+                stats["with_preexisting_x0"] += 1
+            try:
+                with contextlib.redirect_stdout(io.StringIO()):
+                    e_plain, tab_plain = sympy_to_casadi(t, f_dict=dict(UFUN_CA), symbols=dict(symbols))
+            except NotImplementedError:
+                break           # a construct the converter rejects (e.g. pi): covered by forward()
+            try:
+                with contextlib.redirect_stdout(io.StringIO()):
+                    e_cse, tab_cse = sympy_to_casadi(t, f_dict=dict(UFUN_CA), symbols=dict(symbols), cse=True)
+            except Exception as ex:
+                out["failures"].append({"unit": "sympy_to_casadi", "class": "cse_raises", "input": {"expr": str(t), "preexisting_x0": pre}, "expected": "conversion", "observed": "%s: %s" % (type(ex).__name__, str(ex)[:200]), "what": "conversion with cse=True raised on a supported expression"})
+                break
+            names = sorted(tab_plain.keys())
+            if sorted(tab_cse.keys()) != names:
+                out["failures"].append({"unit": "sympy_to_casadi", "class": "cse_symbol_table", "input": {"expr": str(t), "preexisting_x0": pre}, "expected": names, "observed": sorted(tab_cse.keys()), "what": "cse=True returns a different symbol table"})
+                break
+            free = [str(v_) for v_ in ca.symvar(ca.SX(e_cse))]
+            if any(f_ not in tab_cse or not ca.is_equal(tab_cse[f_], [v_ for v_ in ca.symvar(ca.SX(e_cse)) if str(v_) == f_][0]) for f_ in free):
+                out["failures"].append({"unit": "sympy_to_casadi", "class": "cse_free_variable", "input": {"expr": str(t), "preexisting_x0": pre}, "expected": names, "observed": free, "what": "the cse=True result depends on a variable that is not in the returned symbol table (leftover temporary)"})
+                break
+            args = [tab_cse[k] for k in names]
+            f_c = ca.Function("f", args, [ca.SX(e_cse)]); f_p = ca.Function("f", [tab_plain[k] for k in names], [ca.SX(e_plain)])
+            bad = False
+            for _ in range(3):
+                pt = {k: float(rng.uniform(0.2, 1.5)) for k in names}
+                vc = float(f_c(*[pt[k] for k in names])); vp = float(f_p(*[pt[k] for k in names]))
+                tt = t.replace(sympy.Function("f"), lambda a_: 2 * a_ + 1).replace(sympy.Function("g"), lambda a_: a_ * a_).replace(sympy.Function("h"), lambda a_: sympy.cos(a_) - sympy.Rational(1, 2))
+                try:
+                    sv = complex(tt.evalf(30, subs={sympy.Symbol(k): v_ for k, v_ in pt.items()}))
+                except Exception:
+                    sv = complex(0, 1)
+                if not same(vc, vp, 1e-9) or (abs(sv.imag) < 1e-12 and math.isfinite(vc) and not same(vc, sv.real, 1e-8)):
+                    out["failures"].append({"unit": "sympy_to_casadi", "class": "cse_value", "input": {"expr": str(t), "point": pt, "preexisting_x0": pre}, "expected": vp, "observed": vc, "what": "cse=True conversion evaluates differently from the plain conversion / the sympy source"})
+                    bad = True
+                    break
+            if bad:
+                break
+    out["cases"] += n
+    out["distribution"]["sympy_to_casadi_cse"] = stats
+
+
+
 def backward(rng, n, out):
     from cyecca.symbolic import casadi_to_sympy
     x, y = ca.SX.sym("x"), ca.SX.sym("y")
@@ -329,6 +394,7 @@ def main():
     out = {"cases": 0, "disagreements": [], "failures": [], "distribution": {}}
     try:
         forward(rng, a.budget, out)
+        forward_cse(rng, max(8, a.budget // 5), out)
         backward(rng, a.budget, out)
         out["disagreements"] = out["disagreements"][:5]
     except Exception:
